@@ -375,6 +375,9 @@ func classifyLog(c *LogCase, o *pt.Obs) {
 			o.Class("leaf_float")
 			if v.F == math.Trunc(v.F) {
 				o.Class("leaf_float_integral")
+				if math.Abs(v.F) >= 1<<63 && math.Abs(v.F) < 1e21 {
+					o.Class("leaf_float_integral_beyond_int64")
+				}
 			}
 		case model.KBool:
 			o.Class("leaf_bool")
